@@ -217,7 +217,7 @@ func zeroOfSort(s Sort) string {
 	case SBool:
 		return "false"
 	case SStr:
-		return "str.empty"
+		return "sempty"
 	}
 	return "0"
 }
